@@ -26,6 +26,7 @@ PICK = {
  'C08': ['rsub_axis', 'radd_axes2', 'asub_axis'],
  'C10': ['ev_transpose_col', 'ev_reshape_old', 'ev_slice_old', 'ev_sum_row', 'ev_tile_old4', 'ev_pad_old4', 'ev_flip_transpose_old', 'ev_transpose_flip_slice_old', 'out_transpose_row', 'out_invert_old'],
  'C12': ['tight_avx', 'tight_sse', 'tight_v256', 'binary2_avx', 'reduce2_avx'],
+ 'C11': ['btraits', 'tile_traits', 'outer_traits'],
  'C13': ['th_transpose', 'th_add', 'thd_transpose'],
  # the library's own growable buffer (nmtools_list in NMTOOLS_DISABLE_STL builds) and bounded vector: every access inside the heap block / the logical size over 2-step histories
  'C19': ['hist_vector_ops2', 'copy_independent', 'copy_then_grow', 'hist_static_vector'],
@@ -51,7 +52,7 @@ OUTSIDE = ['compositions other than the listed programs', 'device back ends', 'S
 ASSUMPTIONS = ['every query carries CBMC pointer/bounds obligations on all translated loads/stores plus the NMTOOLS_VERIF hook obligations (see module docstring)',
                'known findings of the source properties are excluded exactly as in those properties (matched through finding_pid / finding_harness)']
 CLAIM = dict(
- text='Cross-section of %d harnesses from C03-C08, C10, C12, C13, C19: for every accepted symbolic argument and a symbolic element index inside the reported shape (and for eval into inferred and '
+ text='Cross-section of %d harnesses from C03-C08, C10-C13, C19: for every accepted symbolic argument and a symbolic element index inside the reported shape (and for eval into inferred and '
       'caller-supplied outputs, SIMD packed loads/stores and tails on exact-size buffers, the per-thread device step), the solver shows that no load or store of the encoded nmtools code leaves its '
       'object or inner array, no bounded/utl vector is indexed at or beyond its logical size, every flat offset is below size() and every axis index below its extent in base_ndarray_t::operator(), '
       'no bounded container refuses a resize/push_back, and the evaluator never returns early on a shape mismatch; utl::vector (the STL-free growable buffer) and utl::static_vector stay inside their heap block / capacity over every 2-step history of push_back, resize, assign, copy and write.' % len(HARNESSES),
